@@ -78,6 +78,11 @@ def allocate (n : Nat) : M Nat := fun s => .ok (s.opc + 1, s.tickedOp n)
 /-- `Counter.__call__` on `counter_labels` -/
 def tickLbl : M Nat := fun s => .ok (s.lbc + 1, s.tickedLbl 1)
 def fail {α : Type} (e : Err) : M α := fun _ => .error e
+def getSt : M St := fun s => .ok (s, s)
+def pushLoop (l : Nat × Nat) : M Unit := fun s => .ok ((), s.pushLoop l)
+def popLoop : M Unit := fun s => .ok ((), s.popLoop)
+def pushCase (l : Nat) : M Unit := fun s => .ok ((), s.pushCase l)
+def popCase : M Unit := fun s => .ok ((), s.popCase)
 
 /-- `_generate_operation` -/
 def genOp (name : String) (params : List Param) : M Op := do
@@ -200,21 +205,29 @@ structure Blk where
   start : Option Nat
 deriving Repr
 
-/-- `_process_block(insert_the_jump_if_needed)` after the sub-handlers have been collected into `ops` -/
-def processBlock (hjbs : List BP) (insertJump : Bool) (ops : List LItem) : M Blk := do
-  let endL ← tickLbl
-  let shortcut : Option (Option Nat) :=
-    if insertJump && !hjbs.isEmpty && hjbs.all (·.positive) then loneJump ops else none
-  match shortcut with
+/-- `_process_block(insert_the_jump_if_needed)` after the sub-handlers have been collected into `ops`;
+`canFold` is the handler attribute `lone_jump_can_be_folded` -/
+def shortcutOf (hjbs : List BP) (canFold : Bool) (ops : List LItem) : Option (Option Nat) :=
+  if canFold && !hjbs.isEmpty && hjbs.all (·.positive) then loneJump ops else none
+
+/-- the `if insert_the_jump_if_needed and (…)` that appends the empty end jump -/
+def withEndJump (insertJump : Bool) (ops : List LItem) : M (List LItem) :=
+  if insertJump && needsEndJump ops then (do let j ← genJump none; pure (ops ++ [j])) else pure ops
+
+def processBlockAt (endL : Nat) (hjbs : List BP) (insertJump : Bool) (ops : List LItem) : Option (Option Nat) → M Blk
   | some none => fail .assertionError
-  | some (some l) =>
+  | some (some l) => do
     let hs ← buildAll l hjbs
     pure ⟨[.label endL false], hs, some l⟩
-  | none =>
-    let ops' ← if insertJump && needsEndJump ops then (do let j ← genJump none; pure (ops ++ [j])) else pure ops
+  | none => do
+    let ops' ← withEndJump insertJump ops
     let startL ← tickLbl
     let hs ← buildEach startL endL hjbs
     pure ⟨[.label startL false] ++ ops' ++ [.label endL false], hs, some startL⟩
+
+def processBlock (hjbs : List BP) (canFold insertJump : Bool) (ops : List LItem) : M Blk := do
+  let endL ← tickLbl
+  processBlockAt endL hjbs insertJump ops (shortcutOf hjbs canFold ops)
 
 /-- step 6 of `IfBlock.collect`: `Jump`s without target go to the if's end label -/
 def patchItem (endL : Nat) : LItem → LItem
@@ -420,159 +433,286 @@ def elifsBack : List ElifA → List Blk → List LItem
   | a :: as, b :: bs => (if a.neg then [] else b.items) ++ elifsBack as bs
   | _, _ => []
 
+/-! The handlers' `collect()` methods, each with the `collect()` of its sub-handlers as a parameter (`body`, `inner`, …:
+the computation that collects the statements of the sub-block). The recursion over the statement tree is `cStmt` below. -/
+
+/-- `_process_block`: collect the sub-handlers (`stmts`), then `processBlock` -/
+def blockOf (hjbs : List BP) (canFold insertJump : Bool) (stmts : M (List LItem)) : M Blk := do
+  let ops ← stmts
+  processBlock hjbs canFold insertJump ops
+
+def opStmt (name : String) (params : List Param) : M (List LItem) := do
+  let o ← genOp name params
+  pure [.op o]
+
+/-- `OperationCompileHandler.collect()` with an inline context -/
+def inlStmt (cname : String) (cparam : Param) (name : String) (params : List Param) : M (List LItem) := do
+  let c ← genOp cname [cparam]
+  let o ← genOp name params
+  pure [.op c, .op o]
+
+/-- `CtxBlockCompileHandler.collect()` -/
+def withOf (cname : String) (cparam : Param) (inner : M (List LItem)) : M (List LItem) := do
+  let c ← genOp cname [cparam]
+  let sub ← inner
+  if sub.length == 1 then pure (.op c :: sub) else fail .ssbCompilerError
+
+def labelStmt (n : String) : M (List LItem) := do
+  let i ← userLabel n
+  pure [.label i true]
+
+def jumpStmt (n : String) : M (List LItem) := do
+  let i ← userLabel n
+  let j ← genJump (some i)
+  pure [j]
+
+def callStmt (n : String) : M (List LItem) := do
+  let i ← userLabel n
+  let o ← genOp Gen.op_call []
+  pure [.ljump o (some i)]
+
+/-- `break;` : `CompilerCtx.break_case` -/
+def brkStmt : M (List LItem) := do
+  let s ← getSt
+  match s.cases with
+  | [] => fail .ssbCompilerError
+  | e :: _ => do
+    let j ← genJump (some e)
+    pure [j]
+
+/-- `continue;` : `CompilerCtx.continue_loop` -/
+def contStmt : M (List LItem) := do
+  let s ← getSt
+  match s.loops with
+  | [] => fail .ssbCompilerError
+  | l :: _ => do
+    let j ← genJump (some l.1)
+    pure [j]
+
+/-- `break_loop;` : `CompilerCtx.break_loop` -/
+def brkLoopStmt : M (List LItem) := do
+  let s ← getSt
+  match s.loops with
+  | [] => fail .ssbCompilerError
+  | l :: _ => do
+    let j ← genJump (some l.2)
+    pure [j]
+
+/-- step 3 of `IfBlock.collect`: the else block, or an else block of one jump without target -/
+def elsePartOf (hasElse : Bool) (els : M (List LItem)) : M (List LItem) :=
+  if hasElse then (do let b ← blockOf [] true true els; pure b.items)
+  else (do let j ← genJump none; pure [j])
+
+/-- `block bps` if it was not output already -/
+def lateBlock (early : Option Blk) (block : M Blk) : M Blk :=
+  match early with
+  | some b => pure b
+  | none => block
+
+/-- `if neg: ops += _process_block()` right after the headers -/
+def earlyBlock (neg : Bool) (block : M Blk) : M (Option Blk) :=
+  if neg then (do let b ← block; pure (some b)) else pure none
+
+/-- `IfBlockCompileHandler.collect()`. `body` collects the statements of the if's own block, `els` those of the else block;
+`elifsA` / `elifsB` are steps 2 and 5 over the elseif handlers. -/
+def iteOf (neg : Bool) (hdrs : List Hdr) (body : M (List LItem)) (elifsA : M (List ElifA)) (hasElse : Bool) (els : M (List LItem))
+    (elifsB : List ElifA → M (List Blk)) : M (List LItem) := do
+  -- 0.
+  let endL ← tickLbl
+  -- 1.
+  let bps ← collectIfHdrs (!neg) hdrs
+  let early ← earlyBlock neg (blockOf bps true true body)
+  -- 2.
+  let as ← elifsA
+  -- 3.
+  let elsePart ← elsePartOf hasElse els
+  -- 4.
+  let ifBlk ← lateBlock early (blockOf bps true true body)
+  -- 5.
+  let late ← elifsB as
+  -- 6. 7.
+  let ops := ifBlk.hdrs ++ (if neg then ifBlk.items else []) ++ elifsFront as late ++ elsePart
+              ++ (if neg then [] else ifBlk.items) ++ elifsBack as late
+  pure (patchNone endL ops ++ [.label endL false])
+
+/-- one elseif in step 2 of `IfBlock.collect` -/
+def elifAOf (neg : Bool) (hdrs : List Hdr) (body : M (List LItem)) : M ElifA := do
+  let bps0 ← collectHdrs (!neg) hdrs
+  let bps ← allocateAll bps0
+  let early ← earlyBlock neg (blockOf bps true true body)
+  pure ⟨neg, bps, early⟩
+
+/-- one elseif in step 5 of `IfBlock.collect` -/
+def elifBOf (a : ElifA) (body : M (List LItem)) : M Blk := lateBlock a.early (blockOf a.bps true true body)
+
+/-- `SwitchHeaderCompileHandler.collect()`: an operation as header is collected (one number dropped) and generated again -/
+def switchHdrOp (hdr : Hdr) : M Op := do
+  if hdr.isOp then
+    let _ ← tickOp
+    genOp hdr.name hdr.params
+  else genOp hdr.name hdr.params
+
+/-- step 2c of `SwitchBlock.collect`: without a default handler the default block is one jump to the end label -/
+def defaultOps0 (hasDef : Bool) (endL : Nat) : M (List LItem) :=
+  if hasDef then pure [] else (do let j ← genJump (some endL); pure [j])
+
+/-- the jump blueprint of the default block (no number yet) -/
+def defJmpBP : BP := ⟨Gen.op_jump, [], none, true⟩
+
+/-- `SwitchBlockCompileHandler.collect()`. `run endL bps st0` is step 3 over the case handlers. -/
+def switchOf (hdr : Hdr) (cases : Cases) (run : Nat → List BP → SwSt → M SwSt) : M (List LItem) := do
+  -- 0.
+  let defStart ← tickLbl
+  let endL ← tickLbl
+  -- 0b.
+  let switchOp ← switchHdrOp hdr
+  match cases with
+  | .nil => pure [.op switchOp]
+  | _ => do
+    -- 1.
+    let bps ← caseBPs switchOp.name cases
+    -- 2.
+    let dops0 ← defaultOps0 (hasDefault cases) endL
+    -- 3.
+    let r ← run endL bps ⟨[], [], dops0, []⟩
+    -- 3c.
+    if !r.waiting.isEmpty then fail .ssbCompilerError
+    else
+      -- 4.
+      pure ([.op switchOp] ++ r.hdrJumps ++ [.label defStart false] ++ r.defaultOps ++ r.caseOps ++ [.label endL false])
+
+/-- the loop of `SwitchBlockCompileHandler._falls_through`: (trailing labels, real ops in reverse order) -/
+def ftScan : List LItem → List (Nat × Bool) → List LItem → List (Nat × Bool) × List LItem
+  | [], tl, real => (tl, real)
+  | .label id nm :: r, tl, real => ftScan r (tl ++ [(id, nm)]) real
+  | x :: r, _, real => ftScan r [] (x :: real)
+
+def isJumpTo (id : Nat) : LItem → Bool
+  | .ljump _ (some l) => l == id
+  | _ => false
+
+/-- `_falls_through(case_ops)`: can control run from the end of the case blocks collected so far into the next one -/
+def fallsThrough (caseOps : List LItem) : Bool :=
+  let r := ftScan caseOps [] []
+  match r.2 with
+  | [] => !caseOps.isEmpty
+  | [a] => !endsFlow a none || r.1.any fun l => l.2 || r.2.any (isJumpTo l.1)
+  | a :: b :: _ => !endsFlow a (some b) || r.1.any fun l => l.2 || r.2.any (isJumpTo l.1)
+
+def SwSt.wait (st : SwSt) (w : Option BP) : SwSt := { st with waiting := st.waiting ++ [w] }
+
+/-- the default handler in step 3 of `SwitchBlock.collect`; `body` collects its statements -/
+def defaultStep (endL : Nat) (bodyNil : Bool) (body : M (List LItem)) (st : SwSt) : M SwSt := do
+  if bodyNil then pure (st.wait none)
+  else
+    pushCase endL
+    let b ← blockOf [] (!fallsThrough st.caseOps) false body
+    popCase
+    match b.start with
+    | none => fail .assertionError
+    | some startL => do
+      let j ← buildFor defJmpBP startL
+      let (hs, dops) ← buildWaiting startL defJmpBP st.waiting [j]
+      pure ⟨[], st.hdrJumps ++ hs, dops, st.caseOps ++ b.items⟩
+
+/-- a case handler in step 3 of `SwitchBlock.collect` -/
+def caseStep (endL : Nat) (bp : BP) (bodyNil : Bool) (body : M (List LItem)) (st : SwSt) : M SwSt := do
+  if bodyNil then pure (st.wait (some bp))
+  else
+    pushCase endL
+    let b ← blockOf [bp] (!fallsThrough st.caseOps) false body
+    popCase
+    match b.start with
+    | none => fail .assertionError
+    | some startL => do
+      let (hs, dops) ← buildWaiting startL defJmpBP st.waiting st.defaultOps
+      pure ⟨[], st.hdrJumps ++ hs ++ b.hdrs, dops, st.caseOps ++ b.items⟩
+
+/-- `ForeverBlockCompileHandler.collect()`; the two labels were taken by the constructor (`lb + 1`, `lb + 2`) -/
+def foreverOf (lb : Nat) (body : M (List LItem)) : M (List LItem) := do
+  let startL := lb + 1
+  let endL := lb + 2
+  pushLoop (startL, endL)
+  let b ← blockOf [] true false body
+  let j ← genJump (some startL)
+  popLoop
+  pure ([.label startL false] ++ b.items ++ [j, .label endL false])
+
+/-- the blueprint `WhileBlock.add` / `ForBlock.add` made while visiting (its op number tick is in `voStmt`) -/
+def loopBP (h : Hdr) : BP := ⟨h.name, h.params, none, true⟩
+
+def whileNeg (lb : Nat) (h : Hdr) (body : M (List LItem)) : M (List LItem) := do
+  let startL := lb + 1
+  let endL := lb + 2
+  let br ← buildFor (loopBP h) endL
+  let b ← blockOf [] true false body
+  let j ← genJump (some startL)
+  pure ([.label startL false, br] ++ b.items ++ [j, .label endL false])
+
+def whilePos (lb : Nat) (h : Hdr) (body : M (List LItem)) : M (List LItem) := do
+  let startL := lb + 1
+  let endL := lb + 2
+  let checkL ← tickLbl
+  let blockL ← tickLbl
+  let j ← genJump (some checkL)
+  let b ← blockOf [] true false body
+  let br ← buildFor (loopBP h) blockL
+  pure ([.label startL false, j, .label blockL false] ++ b.items ++ [.label checkL false, br, .label endL false])
+
+/-- `WhileBlockCompileHandler.collect()` -/
+def whileOf (lb : Nat) (neg : Bool) (h : Hdr) (body : M (List LItem)) : M (List LItem) := do
+  pushLoop (lb + 1, lb + 2)
+  let r ← if neg then whileNeg lb h body else whilePos lb h body
+  popLoop
+  pure r
+
+/-- `ForBlockCompileHandler.collect()`; five labels were taken by the constructor -/
+def forOf (lb : Nat) (h : Hdr) (init inc body : M (List LItem)) : M (List LItem) := do
+  let startL := lb + 1
+  let endL := lb + 2
+  let blockL := lb + 3
+  let newRunL := lb + 4
+  let initialL := lb + 5
+  pushLoop (newRunL, endL)
+  let i ← init
+  let j ← genJump (some initialL)
+  let b ← blockOf [] true false body
+  let e ← inc
+  let br ← buildFor (loopBP h) blockL
+  popLoop
+  pure ([.label startL false] ++ i ++ [j, .label blockL false] ++ b.items ++ [.label newRunL false] ++ e
+          ++ [.label initialL false, br, .label endL false])
+
+/-- `MacroCallCompileHandler.collect()` -/
+def macroStmt (ms : Macros) (name : String) (args : List Param) : M (List LItem) :=
+  match ms.lookup name with
+  | none => fail .ssbCompilerError
+  | some m => buildMacro m args
+
 mutual
 /-- `collect()` of the handler of one statement. `lb` = value of the label counter when the visitor reached the
 statement (loop labels were taken then). -/
 def cStmt (ms : Macros) (lb : Nat) : Stmt → M (List LItem)
-  | .op name params => do
-    let o ← genOp name params
-    pure [.op o]
-  | .inl cname cparam name params => do
-    let c ← genOp cname [cparam]
-    let o ← genOp name params
-    pure [.op c, .op o]
-  | .with_ cname cparam inner => do
-    let c ← genOp cname [cparam]
-    let sub ← cStmt ms lb inner
-    if sub.length == 1 then pure (.op c :: sub) else fail .ssbCompilerError
-  | .label n => do
-    let i ← userLabel n
-    pure [.label i true]
-  | .jump n => do
-    let i ← userLabel n
-    let j ← genJump (some i)
-    pure [j]
-  | .call n => do
-    let i ← userLabel n
-    let o ← genOp Gen.op_call []
-    pure [.ljump o (some i)]
-  | .ret => do
-    let o ← genOp Gen.op_return []
-    pure [.op o]
-  | .end_ => do
-    let o ← genOp Gen.op_end []
-    pure [.op o]
-  | .hold => do
-    let o ← genOp Gen.op_hold []
-    pure [.op o]
-  | .brk => do
-    let s ← get
-    match s.cases with
-    | [] => fail .ssbCompilerError
-    | e :: _ => do
-      let j ← genJump (some e)
-      pure [j]
-  | .cont => do
-    let s ← get
-    match s.loops with
-    | [] => fail .ssbCompilerError
-    | l :: _ => do
-      let j ← genJump (some l.1)
-      pure [j]
-  | .brkLoop => do
-    let s ← get
-    match s.loops with
-    | [] => fail .ssbCompilerError
-    | l :: _ => do
-      let j ← genJump (some l.2)
-      pure [j]
-  | .ite neg hdrs body elifs hasElse els => do
-    let lbElifs := lb + vlStmts body
-    let lbElse := lbElifs + vlElifs elifs
-    -- 0.
-    let endL ← tickLbl
-    -- 1.
-    let bps ← collectIfHdrs (!neg) hdrs
-    let early ← if neg then (do let b ← (cStmts ms lb body >>= processBlock bps true); pure (some b)) else pure none
-    -- 2.
-    let as ← cElifsA ms lbElifs elifs
-    -- 3.
-    let elsePart ← if hasElse then (do let b ← (cStmts ms lbElse els >>= processBlock [] true); pure b.items)
-                   else (do let j ← genJump none; pure [j])
-    -- 4.
-    let ifBlk ← match early with
-      | some b => pure b
-      | none => (cStmts ms lb body >>= processBlock bps true)
-    -- 5.
-    let late ← cElifsB ms lbElifs elifs as
-    -- 6. 7.
-    let ops := ifBlk.hdrs ++ (if neg then ifBlk.items else []) ++ elifsFront as late ++ elsePart
-                ++ (if neg then [] else ifBlk.items) ++ elifsBack as late
-    pure (patchNone endL ops ++ [.label endL false])
-  | .switch hdr cases => do
-    -- 0.
-    let defStart ← tickLbl
-    let endL ← tickLbl
-    -- 0b. `SwitchHeaderCompileHandler.collect()`
-    let switchOp ← (do
-      if hdr.isOp then
-        let _ ← tickOp
-        genOp hdr.name hdr.params
-      else genOp hdr.name hdr.params)
-    match cases with
-    | .nil => pure [.op switchOp]
-    | _ => do
-      -- 1.
-      let bps ← caseBPs switchOp.name cases
-      -- 2.
-      let defJmp : BP := ⟨Gen.op_jump, [], none, true⟩
-      let dops0 ← if hasDefault cases then pure [] else (do let j ← genJump (some endL); pure [j])
-      -- 3.
-      let r ← cCases ms lb endL defJmp cases bps ⟨[], [], dops0, []⟩
-      -- 3c.
-      if !r.waiting.isEmpty then fail .ssbCompilerError
-      else
-        -- 4.
-        pure ([.op switchOp] ++ r.hdrJumps ++ [.label defStart false] ++ r.defaultOps ++ r.caseOps ++ [.label endL false])
-  | .forever body => do
-    let startL := lb + 1
-    let endL := lb + 2
-    modify (·.pushLoop (startL, endL))
-    let b ← (cStmts ms (lb + 2) body >>= processBlock [] false)
-    let j ← genJump (some startL)
-    modify (·.popLoop)
-    pure ([.label startL false] ++ b.items ++ [j, .label endL false])
-  | .while_ neg h body => do
-    let startL := lb + 1
-    let endL := lb + 2
-    -- the blueprint was made while visiting (`WhileBlock.add`), its op number tick is in `voStmt`
-    let bp : BP := ⟨h.name, h.params, none, true⟩
-    modify (·.pushLoop (startL, endL))
-    let r ← (do
-      if neg then
-        let br ← buildFor bp endL
-        let b ← (cStmts ms (lb + 2) body >>= processBlock [] false)
-        let j ← genJump (some startL)
-        pure ([.label startL false, br] ++ b.items ++ [j, .label endL false])
-      else
-        let checkL ← tickLbl
-        let blockL ← tickLbl
-        let j ← genJump (some checkL)
-        let b ← (cStmts ms (lb + 2) body >>= processBlock [] false)
-        let br ← buildFor bp blockL
-        pure ([.label startL false, j, .label blockL false] ++ b.items ++ [.label checkL false, br, .label endL false]))
-    modify (·.popLoop)
-    pure r
-  | .for_ init h inc body => do
-    let startL := lb + 1
-    let endL := lb + 2
-    let blockL := lb + 3
-    let newRunL := lb + 4
-    let initialL := lb + 5
-    let bp : BP := ⟨h.name, h.params, none, true⟩
-    modify (·.pushLoop (newRunL, endL))
-    let i ← cStmt ms (lb + 5) init
-    let j ← genJump (some initialL)
-    let b ← (cStmts ms (lb + 5) body >>= processBlock [] false)
-    let e ← cStmt ms (lb + 5) inc
-    let br ← buildFor bp blockL
-    modify (·.popLoop)
-    pure ([.label startL false] ++ i ++ [j, .label blockL false] ++ b.items ++ [.label newRunL false] ++ e
-            ++ [.label initialL false, br, .label endL false])
-  | .macroCall name args =>
-    match ms.lookup name with
-    | none => fail .ssbCompilerError
-    | some m => buildMacro m args
+  | .op name params => opStmt name params
+  | .inl cname cparam name params => inlStmt cname cparam name params
+  | .with_ cname cparam inner => withOf cname cparam (cStmt ms lb inner)
+  | .label n => labelStmt n
+  | .jump n => jumpStmt n
+  | .call n => callStmt n
+  | .ret => opStmt Gen.op_return []
+  | .end_ => opStmt Gen.op_end []
+  | .hold => opStmt Gen.op_hold []
+  | .brk => brkStmt
+  | .cont => contStmt
+  | .brkLoop => brkLoopStmt
+  | .ite neg hdrs body elifs hasElse els =>
+    iteOf neg hdrs (cStmts ms lb body) (cElifsA ms (lb + vlStmts body) elifs) hasElse
+      (cStmts ms (lb + vlStmts body + vlElifs elifs) els) (cElifsB ms (lb + vlStmts body) elifs)
+  | .switch hdr cases => switchOf hdr cases (fun endL bps st0 => cCases ms lb endL cases bps st0)
+  | .forever body => foreverOf lb (cStmts ms (lb + 2) body)
+  | .while_ neg h body => whileOf lb neg h (cStmts ms (lb + 2) body)
+  | .for_ init h inc body => forOf lb h (cStmt ms (lb + 5) init) (cStmt ms (lb + 5) inc) (cStmts ms (lb + 5) body)
+  | .macroCall name args => macroStmt ms name args
 
 /-- `for h in self._added_handlers: ops += h.collect()` -/
 def cStmts (ms : Macros) (lb : Nat) : Stmts → M (List LItem)
@@ -586,59 +726,34 @@ def cStmts (ms : Macros) (lb : Nat) : Stmts → M (List LItem)
 def cElifsA (ms : Macros) (lb : Nat) : Elifs → M (List ElifA)
   | .nil => pure []
   | .cons neg hdrs body r => do
-    let bps0 ← collectHdrs (!neg) hdrs
-    let bps ← allocateAll bps0
-    let early ← if neg then (do let b ← (cStmts ms lb body >>= processBlock bps true); pure (some b)) else pure none
+    let a ← elifAOf neg hdrs (cStmts ms lb body)
     let rest ← cElifsA ms (lb + vlStmts body) r
-    pure (⟨neg, bps, early⟩ :: rest)
+    pure (a :: rest)
 
 /-- step 5 of `IfBlock.collect`: the blocks of the elseifs not yet output, in order -/
 def cElifsB (ms : Macros) (lb : Nat) : Elifs → List ElifA → M (List Blk)
   | .nil, _ => pure []
-  | .cons _ _ body r, as => do
+  | .cons _ _ body r, as =>
     match as with
     | [] => fail .indexError
     | a :: as' => do
-      let b ← match a.early with
-        | some b => pure b
-        | none => (cStmts ms lb body >>= processBlock a.bps true)
+      let b ← elifBOf a (cStmts ms lb body)
       let rest ← cElifsB ms (lb + vlStmts body) r as'
       pure (b :: rest)
 
 /-- step 3 of `SwitchBlock.collect`, handlers in source order (the default at its written position);
 `bps`: the blueprints of the remaining non-default cases -/
-def cCases (ms : Macros) (lb : Nat) (endL : Nat) (defJmp : BP) : Cases → List BP → SwSt → M SwSt
+def cCases (ms : Macros) (lb : Nat) (endL : Nat) : Cases → List BP → SwSt → M SwSt
   | .nil, _, st => pure st
   | .cons true _ _ body r, bps, st => do
-    if body.isNil then
-      cCases ms lb endL defJmp r bps { st with waiting := st.waiting ++ [none] }
-    else
-      modify (·.pushCase endL)
-      let b ← (cStmts ms lb body >>= processBlock [] false)
-      modify (·.popCase)
-      match b.start with
-      | none => fail .assertionError
-      | some startL => do
-        let j ← buildFor defJmp startL
-        let (hs, dops) ← buildWaiting startL defJmp st.waiting [j]
-        cCases ms (lb + vlStmts body) endL defJmp r bps
-          ⟨[], st.hdrJumps ++ hs, dops, st.caseOps ++ b.items⟩
-  | .cons false _ _ body r, bps, st => do
+    let st1 ← defaultStep endL body.isNil (cStmts ms lb body) st
+    cCases ms (lb + vlStmts body) endL r bps st1
+  | .cons false _ _ body r, bps, st =>
     match bps with
     | [] => fail .indexError
     | bp :: bps' => do
-      if body.isNil then
-        cCases ms lb endL defJmp r bps' { st with waiting := st.waiting ++ [some bp] }
-      else
-        modify (·.pushCase endL)
-        let b ← (cStmts ms lb body >>= processBlock [bp] false)
-        modify (·.popCase)
-        match b.start with
-        | none => fail .assertionError
-        | some startL => do
-          let (hs, dops) ← buildWaiting startL defJmp st.waiting st.defaultOps
-          cCases ms (lb + vlStmts body) endL defJmp r bps'
-            ⟨[], st.hdrJumps ++ hs ++ b.hdrs, dops, st.caseOps ++ b.items⟩
+      let st1 ← caseStep endL bp body.isNil (cStmts ms lb body) st
+      cCases ms (lb + vlStmts body) endL r bps' st1
 end
 
 end ESV.Comp
